@@ -214,6 +214,23 @@ theorem C07_room_wakes_all (s s' : St) (a : Act) (h : step s a = some s')
     · cases h
   · simp only [step] at h; cases h; simp [notifyAll]
 
+/-- (shutdown releases blocked submitters, S17) once `shutdown()` has set the flag, no submitter can go (back) to sleep: every test of
+the `while` condition comes out false whatever the queue length and the limit; together with `C07_room_wakes_all` for `shutNotify`
+every submitter that was asleep is woken and leaves `_block_until_ready` (its `submit()` then raises in `ensure_alive`, C11). -/
+theorem C07_shutdown_releases_blocked (s s' : St) (tv : Option Nat) (sh park : Bool) (hs : s.shut = .done)
+    (h : step s (.check tv sh park) = some s') : park = false ∧ s' = s := by
+  simp only [step] at h
+  split at h
+  · rename_i hc
+    obtain ⟨hr, hp⟩ := hc
+    have hsh : sh = true := by simpa [mayRead, hs] using hr
+    subst hsh
+    have : park = false := by rw [hp]; simp [K4.blockWait]
+    subst this
+    simp at h
+    exact ⟨rfl, h.symm⟩
+  · cases h
+
 /-! Non-vacuity: limit 1; one job queued; a second submitter parks; the hand-over section pops the job and notifies; the submitter
 wakes, re-tests and passes. -/
 def demo : List Act := [.check (some 1) false false, .enq, .check (some 1) false true, .pop 1, .wake false, .check (some 1) false false, .enq]
